@@ -420,6 +420,20 @@ func EvalArg(s *Scope, args List, index, depth int) (v Object) {
 	return
 }
 
+// EvalArgFirst evaluates an argument like EvalArg but reduces multiple values
+// to the primary value. It is for arguments used as a single value such as
+// the test of a conditional.
+func EvalArgFirst(s *Scope, args List, index, depth int) (v Object) {
+	v = EvalArg(s, args, index, depth)
+	if vs, ok := v.(Values); ok {
+		v = nil
+		if 0 < len(vs) {
+			v = vs[0]
+		}
+	}
+	return
+}
+
 // GetArgsKeyValue returns the value for a key in args. Args must be the
 // arguments after any required or optional arguments.
 func GetArgsKeyValue(args List, key Symbol) (value Object, has bool) {
